@@ -226,6 +226,15 @@ func (s *Sim) event(kind byte) FaultKind {
 		}
 		return FaultNone
 	}
+	if s.faultKind == FaultCommitErr {
+		// a commit error is applied at the first commit at or after event k
+		if !s.faultFired && s.evt >= s.faultAt && kind == 'c' {
+			s.faultFired = true
+			s.Stats["fired_"+FaultCommitErr.String()]++
+			return FaultCommitErr
+		}
+		return FaultNone
+	}
 	if s.faultKind != FaultNone && !s.faultFired && s.evt == s.faultAt {
 		s.faultFired = true
 		k := s.faultKind
